@@ -167,6 +167,13 @@ def install_loop_rule(it):
             return None
         if callable(getattr(spec, 'applies', None)) and not spec.applies(it, env, iterable):
             return None
+        from .values import RangeV
+        if isinstance(iterable, RangeV):
+            # range(a, b) with a symbolic bound, cut by an invariant: the sequence a, a+1, ..., b-1 (empty if b <= a)
+            if not (isinstance(iterable.step, int) and iterable.step == 1):
+                raise Unsupported('cut loop over a range with a step')
+            a, b = it.int_term(iterable.start), it.int_term(iterable.stop)
+            iterable = SymSeq([], z3.If(b > a, b - a, 0), lambda i, a=a: a + i, 'range')
 
         def run():
             try:
